@@ -145,53 +145,46 @@ Print Assumptions c01_noise_undisturbed_and_prologue.
 
 (* ============================ TLS ============================================== *)
 
-(* tls_key_is_certified (the part that holds for the code as it is, whether or
-   not the self-signature is checked): PubKeyFromCertChain returns a key only
-   for a chain of exactly one certificate, currently valid, without unhandled
-   critical extension, whose FIRST libp2p extension holds that key and a
-   signature issued BY that key over "libp2p-tls-handshake:" ++ the key of
-   THIS certificate.  For every chain. *)
-Theorem c01_tls_key_is_certified_partial : forall sf chain pub,
-  pubkey_from_chain sf chain = inl pub ->
+(* tls_key_is_certified: PubKeyFromCertChain returns a key only for a chain of
+   exactly one certificate, currently valid, without unhandled critical
+   extension, signed by its own key over the bytes as they are, whose FIRST
+   libp2p extension holds that key and a signature issued BY that key over
+   "libp2p-tls-handshake:" ++ the key of THIS certificate.  For every chain. *)
+Theorem c01_tls_key_is_certified : forall chain pub,
+  pubkey_from_chain chain = inl pub ->
   exists c id r,
     chain = [c] /\ pub = NPub id /\
     find_libp2p (c_exts c) = Some (XSigned (NPub id) (NSig id (NCat TLSPREFIX (certpub (c_key c))) r)) /\
     c_time_ok c = true /\ existsb other_critical (c_exts c) = false /\
-    (sf = true -> self_signed c = true).
-Proof. exact pubkey_from_chain_sound. Qed.
-Print Assumptions c01_tls_key_is_certified_partial.
-
-(* the full statement — "... and the certificate is signed by its own key over
-   the bytes as they are" — holds for a tree that checks the signature ... *)
-Theorem c01_tls_key_is_certified : forall chain pub,
-  pubkey_from_chain true chain = inl pub ->
-  exists id, pub = NPub id /\ certifies chain id = true /\ self_signature_defect chain = 0%Z.
+    self_signed c = true /\
+    certifies chain id = true /\ self_signature_defect chain = 0%Z.
 Proof.
-  intros chain pub H. apply certifies_of_sound in H. destruct H as [id [E [C S]]].
-  exists id. repeat split; auto.
+  intros chain pub H. pose proof (certifies_of_sound _ _ H) as [id' [E [C S]]].
+  apply pubkey_from_chain_sound in H. destruct H as [c [id [r [-> [-> [Hf [Ht [Ho Hs]]]]]]]].
+  inversion E; subst. exists c, id', r. repeat split; assumption.
 Qed.
 Print Assumptions c01_tls_key_is_certified.
 
-(* ... and is REFUTED for the code as it is (x509.Verify does not check the
-   signature of a certificate that is itself in the root pool): a certificate
-   signed with a substituted key, and one altered after signing, are accepted *)
-Theorem c01_tls_self_signature_refuted :
-  exists chain1 chain2,
-    pubkey_from_chain false chain1 = inl (NPub 3) /\ self_signature_defect chain1 = 1%Z /\
-    pubkey_from_chain false chain2 = inl (NPub 3) /\ self_signature_defect chain2 = 2%Z.
-Proof.
-  exists [mkCert 1 4 true true [XLibp2p false (XSigned (NPub 3) (NSig 3 (NCat TLSPREFIX (certpub 1)) 1))]],
-         [mkCert 1 1 false true [XLibp2p false (XSigned (NPub 3) (NSig 3 (NCat TLSPREFIX (certpub 1)) 1))]].
-  vm_compute. repeat split; reflexivity.
-Qed.
-Print Assumptions c01_tls_self_signature_refuted.
+(* the defect this check found in the pinned tree (x509.Verify checks no
+   signature of a certificate that is itself in the root pool) is repaired by
+   an explicit CheckSignature; the regenerated constant says the source still
+   contains it, and the former witnesses are rejected *)
+Theorem c01_tls_self_signature_checked :
+  tls_self_signature_checked = true /\
+  pubkey_from_chain [mkCert 1 4 true true [XLibp2p false (XSigned (NPub 3) (NSig 3 (NCat TLSPREFIX (certpub 1)) 1))]]
+    = inr T_CERTVERIFY /\
+  pubkey_from_chain [mkCert 1 1 false true [XLibp2p false (XSigned (NPub 3) (NSig 3 (NCat TLSPREFIX (certpub 1)) 1))]]
+    = inr T_CERTVERIFY.
+Proof. vm_compute. repeat split; reflexivity. Qed.
+Print Assumptions c01_tls_self_signature_checked.
 
 (* the callback of ConfigForPeer(remote): a key reaches keyCh only if the chain
-   certifies it and, when a peer was named, it is that peer's key *)
-Theorem c01_tls_expected_peer_enforced : forall sf remote raw pub,
-  verify_peer sf remote raw = inl pub ->
+   certifies it, the certificate is validly self-signed and, when a peer was
+   named, it is that peer's key *)
+Theorem c01_tls_expected_peer_enforced : forall remote raw pub,
+  verify_peer remote raw = inl pub ->
   exists id, pub = NPub id /\ certifies raw id = true /\
-             (sf = true -> self_signature_defect raw = 0%Z) /\
+             self_signature_defect raw = 0%Z /\
              forallb parse_ok raw = true /\
              (forall r, remote = Some r -> r = id).
 Proof. exact verify_peer_sound. Qed.
@@ -199,7 +192,8 @@ Print Assumptions c01_tls_expected_peer_enforced.
 
 (* tls_mutations_rejected: every mutation of the libp2p extension of an honest
    certificate (public key, signature, certificate key, extension absent /
-   duplicated / not ASN.1, chain length 0 and 2) is rejected, whoever is
+   duplicated / not ASN.1, chain length 0 and 2, certificate signed with another
+   key or altered after signing) is rejected, whoever is
    expected, for every pair of distinct identities own (presenting) and v (victim) *)
 Definition good_ext (id key : N) : ext :=
   XLibp2p false (XSigned (NPub id) (NSig id (NCat TLSPREFIX (certpub key)) 1)).
@@ -224,26 +218,27 @@ Definition mutated_chains (own v : N) : list (list cert) :=
     [cert1 [good_ext own 1]; mkCert 3 3 true true [good_ext own 3]];
     [cert1 [good_ext own 1]; mkCert 3 3 true true []];
     [mkCert 3 3 true true []; cert1 [good_ext own 1]];
-    [mkCert 2 2 true true [good_ext v 2]; cert1 [good_ext own 1]] ].
+    [mkCert 2 2 true true [good_ext v 2]; cert1 [good_ext own 1]];
+    [mkCert 1 3 true true [good_ext own 1]];                        (* signed with another key *)
+    [mkCert 1 1 false true [good_ext own 1]] ].                     (* altered after signing *)
 
 Definition rejected (r : nt + N) : bool := match r with inr _ => true | inl _ => false end.
 Definition ids123 : list N := [1; 2; 3]%N.
 
-Theorem c01_tls_mutations_rejected : forall sf own v exp ch,
+Theorem c01_tls_mutations_rejected : forall own v exp ch,
   In own ids123 -> In v ids123 -> own <> v -> In exp (None :: map Some ids123) ->
   In ch (mutated_chains own v) ->
-  rejected (verify_peer sf exp ch) = true /\
-  (forallb parse_ok ch = true -> rejected (pubkey_from_chain sf ch) = true).
+  rejected (verify_peer exp ch) = true /\
+  (forallb parse_ok ch = true -> rejected (pubkey_from_chain ch) = true).
 Proof.
-  assert (A : forallb (fun sf => forallb (fun own => forallb (fun v => N.eqb own v ||
+  assert (A : forallb (fun own => forallb (fun v => N.eqb own v ||
                 forallb (fun exp => forallb (fun ch =>
-                   rejected (verify_peer sf exp ch) &&
-                   (negb (forallb parse_ok ch) || rejected (pubkey_from_chain sf ch)))
-                 (mutated_chains own v)) (None :: map Some ids123)) ids123) ids123) [false; true] = true)
+                   rejected (verify_peer exp ch) &&
+                   (negb (forallb parse_ok ch) || rejected (pubkey_from_chain ch)))
+                 (mutated_chains own v)) (None :: map Some ids123)) ids123) ids123 = true)
     by (vm_compute; reflexivity).
-  intros sf own v exp ch Ho Hv Hne He Hc.
-  rewrite forallb_forall in A. assert (Hs : In sf [false; true]) by (destruct sf; cbn; auto).
-  specialize (A sf Hs). rewrite forallb_forall in A. specialize (A own Ho).
+  intros own v exp ch Ho Hv Hne He Hc.
+  rewrite forallb_forall in A. specialize (A own Ho).
   rewrite forallb_forall in A. specialize (A v Hv). apply orb_true_iff in A. destruct A as [A|A].
   { apply N.eqb_eq in A. contradiction. }
   rewrite forallb_forall in A. specialize (A exp He). rewrite forallb_forall in A. specialize (A ch Hc).
@@ -255,36 +250,34 @@ Print Assumptions c01_tls_mutations_rejected.
 (* the handshake (ideal TLS 1.3 around the real checks): a completed endpoint
    received no edited record, the peer held the leaf certificate's private key,
    its chain certifies the reported key, and a named peer is enforced *)
-Theorem c01_tls_handshake_authenticates : forall sf me other ed pf id key,
-  tls_endpoint sf me other ed pf = TDone id key ->
+Theorem c01_tls_handshake_authenticates : forall me other ed pf id key,
+  tls_endpoint me other ed pf = TDone id key ->
   ed = false /\ pf = false /\ key = NPub id /\ t_holds other = true /\
   certifies (t_chain other) id = true /\
-  (sf = true -> self_signature_defect (t_chain other) = 0%Z) /\
+  self_signature_defect (t_chain other) = 0%Z /\
   (forall r, t_expect me = Some r -> r = id).
 Proof. exact tls_endpoint_done. Qed.
 Print Assumptions c01_tls_handshake_authenticates.
 
 (* HEADLINE (TLS): the monitor that judges the implementation accepts the
    model's trace for every pair of endpoints, every certificate chain on either
-   side, every edit position — given the ground truth the monitor is told (each
+   side, every edit position — given the ground truth the monitor is told: each
    endpoint can get only its own identity certified for a certificate key it
-   holds: unforgeability), and either a tree that checks the self-signature or
-   chains without a self-signature defect.  The case excluded by the last
-   hypothesis is exactly the finding c01_tls_self_signature_refuted. *)
-Theorem c01_tls_monitor_accepts_model_partial : forall sf c s e idC idS wp,
+   holds (unforgeability; the symbolic algebra cannot express who knows which
+   private key, so this enters as a hypothesis). *)
+Theorem c01_tls_monitor_accepts_model : forall c s e idC idS wp,
   presents_only_own c idC -> presents_only_own s idS ->
-  (sf = true \/ (self_signature_defect (t_chain c) = 0%Z /\ self_signature_defect (t_chain s) = 0%Z)) ->
-  let '(rc, rs) := tls_run sf c s e in
+  let '(rc, rs) := tls_run c s e in
   judge_tls_side c s idS (match e with TServerFlight => true | _ => false end) (tobs_of rc rs wp) = [] /\
   judge_tls_side s c idC (match e with TClientHello | TClientFlight => true | _ => false end) (tobs_of rs rc wp) = [].
 Proof.
-  intros sf c s e idC idS wp Hc Hs Hself. unfold tls_run. split.
-  - apply judge_tls_side_model; [exact Hs | destruct Hself as [->|[_ D]]; auto |].
+  intros c s e idC idS wp Hc Hs. unfold tls_run. split.
+  - apply judge_tls_side_model; [exact Hs |].
     destruct e; intros H; try discriminate H; reflexivity.
-  - apply judge_tls_side_model; [exact Hc | destruct Hself as [->|[D _]]; auto |].
+  - apply judge_tls_side_model; [exact Hc |].
     destruct e; intros H; try discriminate H; reflexivity.
 Qed.
-Print Assumptions c01_tls_monitor_accepts_model_partial.
+Print Assumptions c01_tls_monitor_accepts_model.
 
 (* ============================ swarm ============================================ *)
 
@@ -341,10 +334,15 @@ Example monitor_rejects_unexpected_peer :
 Proof. vm_compute. discriminate. Qed.
 
 (* TLS: an honest chain is accepted and certifies its key *)
-Example tls_honest_chain_accepted : forall sf,
-  verify_peer sf (Some 3%N) [cert1 [good_ext 3 1]] = inl (NPub 3) /\
+Example tls_honest_chain_accepted :
+  verify_peer (Some 3%N) [cert1 [good_ext 3 1]] = inl (NPub 3) /\
   certifies [cert1 [good_ext 3 1]] 3 = true.
-Proof. intros []; vm_compute; split; reflexivity. Qed.
+Proof. vm_compute; split; reflexivity. Qed.
+
+(* the monitor rejects an accepted certificate that was signed with another key (the repaired defect) *)
+Example monitor_rejects_bad_self_signature :
+  monitor_case [2; 0; 0; 1; 1;3;1;1;1; 1;0;1;3;3;1;1; 0;3;0;3]%Z <> [].
+Proof. vm_compute. discriminate. Qed.
 
 (* the TLS monitor rejects a client that completes against a certificate carrying the
    victim's extension over another certificate key *)
